@@ -2,7 +2,7 @@ HOOKS = {
     "guard": "verif",
     "enable": "go build -tags verif (the harness module /verif/harness replaces github.com/benoitkugler/webrender by /repo)",
     "baseline_off_cmd": "bin/baseline_off",
-    "source_commits": [],
+    "source_commits": ["38cf8a4"],
     "add_only": True,
 }
 ENGINES = [
@@ -16,6 +16,23 @@ NOTES = ("Every check = TLA+ specification under spec/ checked by TLC + conforma
          "known_findings.json lists genuine defects (known / fixed).")
 NOT_APPLICABLE = {}
 CHECKS = {
+    "C06": {
+        "level": "model_checking",
+        "technique": "TLA+ specs CssSyntax.tla (tokenizer transition system) and CssParse.tla (rule/declaration cursor machine) model-checked by TLC; every terminal state replayed into css/parser and compared token by token",
+        "text": "TLC enumerates every input string of six alphabet families (up to 245k strings of length <= 4 in the main family) and every abstract "
+                "token sequence per parser entry point, checking tiling/balance/progress/determinism invariants in each state; each terminal state "
+                "carries the complete token stream (types, unescaped values, numeric parts, flags, nesting, error kinds, start offsets) resp. the "
+                "result list (construct kinds and extents, !important), and the real tokenizer/parsers must reproduce it exactly.",
+        "note": "Bounded length/alphabets; three named deviations of the tinycss2 port are part of the spec; ParseBlocksContents (nesting), ParseNth and ParseColorString are not modelled; H1 accessor hook exposes private flags.",
+    },
+    "C20": {
+        "level": "model_checking",
+        "technique": "TLA+ spec CssSyntax.tla generates inputs; real Serialize output is validated by TLC (CssRoundTrip.tla trace validation: spec tokenizer on both texts) and by replay against the spec's tokens",
+        "text": "For every error-free input of the CssSyntax families the real tokens are serialized by parser.Serialize; the serialisation is "
+                "(B1) re-tokenized by the real tokenizer and compared with the specification's tokens of the original, and (B2) written to an "
+                "ndjson trace that TLC validates with the specification's own tokenizer (independent of the code under test).",
+        "note": "Bounded inputs; rule/declaration serializers covered only through their token lists; comments and positions ignored as the property states.",
+    },
     "C17": {
         "level": "model_checking",
         "technique": "TLA+ spec (Transform.tla) model-checked by TLC; every TLC state replayed into the real code (scenario replay conformance)",
